@@ -171,7 +171,8 @@ def c16(tier, seed):
 
 # ------------------------------------------------------------------------------------------------ C17
 FAULTS = ["missing_file", "bad_json", "wrong_lookup", "scalar_lookup", "falsy_scalar_lookup", "non_object_sample", "bad_merge", "bad_framework_combo",
-          "generator_exception", "bad_yaml", "bad_ini"]
+          "generator_exception", "bad_yaml", "bad_ini", "missing_ini", "missing_yaml", "null_sample", "zero_sample", "false_sample", "empty_string_sample",
+          "empty_list_sample", "string_sample", "looked_up_list_with_null"]
 
 
 def oracle_c17(case):
@@ -201,6 +202,22 @@ def oracle_c17(case):
             lookup = ["total"]
         elif fault == "non_object_sample":
             json.dump([1, 2, 3], open(bad, "w"))
+        elif fault in ("null_sample", "zero_sample", "false_sample", "empty_string_sample", "empty_list_sample", "string_sample"):
+            # a non-object among the samples of a list file (falsy ones included): not a model, must fail
+            v = {"null_sample": None, "zero_sample": 0, "false_sample": False, "empty_string_sample": "", "empty_list_sample": [], "string_sample": "abc"}[fault]
+            json.dump([{"id": 7}, v, {"id": 8}], open(bad, "w"))
+        elif fault == "looked_up_list_with_null":
+            json.dump({"data": [{"id": 7}, None]}, open(bad, "w"))
+            lookup = ["data"]
+        elif fault in ("missing_ini", "missing_yaml"):
+            ext = fault.split("_")[1]
+            good = []
+            for i in range(2):
+                gp = os.path.join(d, f"good{i}.{ext}")
+                open(gp, "w").write("[sec]\nkey = value\n" if ext == "ini" else "sec:\n  key: value\n")
+                good.append(gp)
+            bad = os.path.join(d, "nope." + ext)
+            fmt = ["-i", ext]
         elif fault == "bad_merge":
             json.dump([{"id": 9}], open(bad, "w"))
             extra = ["--merge", "nonsense_5"]
